@@ -152,6 +152,21 @@ func gen(seed uint64, tier string) {
 	for i, g := range corpus {
 		emit(g, i)
 	}
+	// long point sequences around buffer/chunk sizes (readers that read count-prefixed arrays in
+	// blocks must reassemble them exactly), stand-alone, as rings and nested
+	sizes := []int{1023, 1024, 1025, 2049, 3000}
+	if tier == "thorough" {
+		sizes = append(sizes, 2047, 2048, 4095, 4096, 4097, 5000, 8193, 65535, 65536, 65537, 70001)
+	}
+	for i, n := range sizes {
+		ps := make([]geom.Point, n)
+		for j := range ps {
+			ps[j] = geom.Point{X: float64(j), Y: coord(r)}
+		}
+		emit(geom.LineString(ps), i)
+		emit(geom.Polygon{ps[:n/3], ps, ps[:7]}, i+1)
+		emit(geom.GeometryCollection{geom.MultiLineString{ps[:5], ps}, geom.MultiPolygon{{ps}, {}}, geom.MultiPoint(ps)}, i)
+	}
 	for i := 0; i < n; i++ {
 		emit(genGeom(r, 4), i)
 	}
